@@ -4,7 +4,9 @@ package main
 
 import (
 	"bufio"
+	"crypto/ed25519"
 	"encoding/base64"
+	"encoding/hex"
 	"fmt"
 	"strconv"
 	"strings"
@@ -73,15 +75,18 @@ func (w *world) monResponse(r addReq, res result) {
 		return
 	}
 	n, _ := strconv.ParseInt(ns.size, 10, 64)
-	found := false
+	// on record = among the effective writes of the origin's register AT THE MOMENT the answer was complete (res.nw)
 	w.st.mu.Lock()
-	for _, x := range w.recorded[ns.origin] {
-		if x.size == n && x.root == ns.root {
-			found = true
-		}
-	}
+	found := w.recordedAt(ns.origin, n, ns.root, res.nw)
+	onrec := w.onRecord(ns.origin, res.nw)
 	w.st.mu.Unlock()
-	mon("mon_released", args, found, "cosignature released for a checkpoint that was never written to the lock backend")
+	why := ""
+	if !found {
+		why = "cosignature released in a 200 answer for a checkpoint that was not written to the lock backend at that moment (on record: " +
+			onrec + "); history: " + w.history(ns.origin)
+	}
+	mon("mon_released", args, found, why)
+	w.monOneView(ns.origin, n, ns.root, "answer")
 	text := torchwood.Checkpoint{Origin: ns.origin, Tree: tlog.Tree{N: n, Hash: ns.root}}.String()
 	lines := strings.SplitAfter(res.raw, "\n")
 	ok, why := true, ""
@@ -210,4 +215,235 @@ func (w *world) monSub(r subReq, res result) {
 		ok, why = false, "200 without any signature"
 	}
 	mon("mon_subsig", args, ok, why)
+}
+
+// ---- release monitors: the property's own clause on everything that becomes readable outside the witness ----
+
+type wrec struct {
+	key  [32]byte
+	size int64
+	root tlog.Hash
+	ok   bool
+}
+
+type pubRec struct {
+	key  string
+	data []byte
+	nw   int // effective lock writes at the moment the object became readable
+}
+
+type rel struct {
+	size int64
+	root tlog.Hash
+	via  string // "answer" | "bucket"
+	ev   int    // number of the request (in w.evs) that released it
+}
+
+// parsed view of st.writes (st.mu held)
+func (w *world) syncWrec() {
+	for k := len(w.wrec); k < len(w.st.writes); k++ {
+		lw := w.st.writes[k]
+		x := wrec{key: lw.key}
+		if c, err := torchwood.ParseCheckpoint(noteText(lw.data)); err == nil {
+			x.size, x.root, x.ok = c.N, c.Hash, true
+		}
+		w.wrec = append(w.wrec, x)
+	}
+}
+
+func (w *world) originKey(origin string) [32]byte {
+	return lockKey("witness log\n", w.kr.wEd.Public().(ed25519.PublicKey), origin)
+}
+
+// was (size, root) written to the origin's register among the first nw effective writes? (st.mu held)
+func (w *world) recordedAt(origin string, n int64, root tlog.Hash, nw int) bool {
+	w.syncWrec()
+	k := w.originKey(origin)
+	for _, x := range w.wrec[:nw] {
+		if x.ok && x.key == k && x.size == n && x.root == root {
+			return true
+		}
+	}
+	return false
+}
+
+// what the origin's register held after the first nw effective writes (st.mu held)
+func (w *world) onRecord(origin string, nw int) string {
+	w.syncWrec()
+	k := w.originKey(origin)
+	for j := nw - 1; j >= 0; j-- {
+		if x := w.wrec[j]; x.key == k {
+			return fmt.Sprintf("size %d root %s(%s)", x.size, hex.EncodeToString(x.root[:4]), w.which(x.size, x.root))
+		}
+	}
+	return "nothing (size 0)"
+}
+
+// which ground-truth history (A, B, C ...) a root belongs to
+func (w *world) which(n int64, root tlog.Hash) string {
+	var l []string
+	for k, g := range w.gt {
+		if n <= int64(len(g.leaves)) && g.root(n) == root {
+			l = append(l, string(rune('A'+k)))
+		}
+	}
+	if len(l) == 0 {
+		return "?"
+	}
+	return strings.Join(l, "=")
+}
+
+func shortTuples(s string) string {
+	if s == "-" || s == "" {
+		return "-"
+	}
+	var o []string
+	for _, t := range strings.Split(s, ";") {
+		f := strings.Split(t, ":")
+		if len(f) >= 3 && len(f[2]) >= 8 {
+			o = append(o, f[1]+"/"+f[2][:8])
+		} else {
+			o = append(o, t)
+		}
+	}
+	return strings.Join(o, ",")
+}
+
+// one compact entry of the world's request history (no '|' inside: it is quoted in monitor lines)
+func (w *world) event(origin string, i int, what string, r *addReq, faults, status, l, u string) {
+	e := fmt.Sprintf("#%d inst%d %s", len(w.evs)+1, i, what)
+	if r != nil && r.note.spec.kind == "ckpt" {
+		origin = r.note.spec.origin
+	}
+	if r != nil {
+		old := "?"
+		if b, err := hex.DecodeString(r.hdr); err == nil {
+			first, _, _ := strings.Cut(string(b), "\n")
+			old = strings.TrimPrefix(first, "old ")
+		}
+		ns := r.note.spec
+		if ns.kind == "ckpt" {
+			n, _ := strconv.ParseInt(ns.size, 10, 64)
+			e += fmt.Sprintf(" old=%s new=%s/%s(%s) sigs=%s", old, ns.size, hex.EncodeToString(ns.root[:4]), w.which(n, ns.root),
+				r.note.abstract[strings.LastIndex(r.note.abstract, ":")+1:])
+		} else {
+			e += " old=" + old + " note=" + strings.SplitN(r.note.abstract, ":", 2)[0]
+		}
+	}
+	if faults != "" {
+		e += " " + faults
+	}
+	if status != "" {
+		e += " -> " + strings.TrimSuffix(status, "@")
+	}
+	if l != "" || u != "" {
+		e += " lockwrites=" + shortTuples(l) + " uploads=" + shortTuples(u)
+	}
+	w.evs = append(w.evs, ev{origin, strings.ReplaceAll(e, "|", "/")})
+}
+
+type ev struct{ origin, text string } // origin "*" = concerns every origin (restart)
+
+// the last requests of this world, as quoted in a failing monitor line
+func (w *world) history(origin string) string {
+	var l []string
+	for _, e := range w.evs {
+		if e.origin == origin || e.origin == "*" && len(l) > 0 {
+			l = append(l, e.text)
+		}
+	}
+	if len(l) > 14 {
+		l = append([]string{"..."}, l[len(l)-14:]...)
+	}
+	return "[" + origin + "] " + strings.Join(l, "; ")
+}
+
+// does a witness key's signature line of this note verify (public verifier) over the note's text?
+func (w *world) witnessCosigned(data []byte) bool {
+	text := noteText(data)
+	if len(text) >= len(data) {
+		return false
+	}
+	for _, l := range strings.SplitAfter(string(data[len(text)+1:]), "\n") {
+		name, hash, ok := parseSigLine(l)
+		if !ok {
+			continue
+		}
+		if id := w.kr.idOf(name, hash); (id == kW1 || id == kW2) && w.kr.keys[id].verifier.Verify([]byte(text), sigBytes(l)) {
+			return true
+		}
+	}
+	return false
+}
+
+// every object that became readable in the bucket since the last call: a witness-cosigned checkpoint may become public
+// only when it is already on record in the lock backend ("durably recorded before any cosignature is released")
+func (w *world) monUploads() {
+	pend := w.pend
+	w.pend = nil
+	for _, p := range pend {
+		c, err := torchwood.ParseCheckpoint(noteText(p.data))
+		if err != nil || !w.witnessCosigned(p.data) {
+			stats["public_object_without_witness_cosignature"]++
+			continue
+		}
+		w.st.mu.Lock()
+		found := w.recordedAt(c.Origin, c.N, c.Hash, p.nw)
+		onrec := w.onRecord(c.Origin, p.nw)
+		w.st.mu.Unlock()
+		why := ""
+		if !found {
+			why = fmt.Sprintf("witness-cosigned checkpoint size %d root %s(%s) of %s became readable in the bucket (%s) while it was not recorded in the lock backend (on record at that moment: %s); history: %s",
+				c.N, hex.EncodeToString(c.Hash[:4]), w.which(c.N, c.Hash), c.Origin, p.key, onrec, w.history(c.Origin))
+		}
+		mon("mon_public", []string{hx([]byte(c.Origin)), fmt.Sprint(c.N), hx(c.Hash[:]), "bucket"}, found, why)
+		w.monOneView(c.Origin, c.N, c.Hash, "bucket")
+	}
+}
+
+// all witness-cosigned checkpoints ever released for one origin (200 answers AND bucket objects) are one history:
+// same size => same root, and when one of them is the root of a prefix of a ground-truth history, every smaller one
+// is the root of the shorter prefix of the SAME history
+func (w *world) monOneView(origin string, n int64, root tlog.Hash, via string) {
+	x := rel{n, root, via, len(w.evs)}
+	ok, why := true, ""
+	clash := func(a, b rel) { // a.size <= b.size
+		if !ok {
+			return
+		}
+		d := func(r rel) string {
+			return fmt.Sprintf("size %d root %s(%s) released via %s by request #%d", r.size, hex.EncodeToString(r.root[:4]), w.which(r.size, r.root), r.via, r.ev)
+		}
+		ok, why = false, "SPLIT VIEW for "+origin+": witness cosignatures are public for two inconsistent trees: "+d(a)+" and "+d(b)
+	}
+	for _, y := range w.released[origin] {
+		a, b := y, x
+		if a.size > b.size {
+			a, b = b, a
+		}
+		if a.size == b.size {
+			if a.root != b.root {
+				clash(a, b)
+			}
+			continue
+		}
+		for _, g := range w.gt {
+			if b.size <= int64(len(g.leaves)) && g.root(b.size) == b.root && g.root(a.size) != a.root {
+				clash(a, b)
+			}
+		}
+	}
+	dup := false
+	for _, y := range w.released[origin] {
+		if y.size == n && y.root == root {
+			dup = true
+		}
+	}
+	if !dup {
+		w.released[origin] = append(w.released[origin], x)
+	}
+	if !ok {
+		why += "; history: " + w.history(origin)
+	}
+	mon("mon_oneview", []string{hx([]byte(origin)), fmt.Sprint(n), hx(root[:]), via, fmt.Sprint(len(w.released[origin]))}, ok, why)
 }
